@@ -23,7 +23,7 @@ for log in sys.argv[1:]:
         prev = meta.get('detected_by', {}).get(pid)
         entry = f'`./check {pid}` as it stood at the time of the run: {verdict}'
         if prev and prev != entry and 'after' not in prev: entry = prev + '; then: ' + entry
-        meta.setdefault('detected_by', {})[pid] = entry if not prev or prev == entry else (prev if entry in prev else prev + '; later run: ' + verdict)
+        meta.setdefault('detected_by', {})[pid] = entry if not prev or prev == entry else (prev if (entry in prev or verdict in prev) else prev.replace('(run pending)', '') + ('' if prev.endswith(': ') else '; later run: ') + verdict)
         ran = f'tools/run_seed_scratch.sh /verif/seeded/{sid}/patch.diff {pid}  (the checks of /verif against a scratch worktree of /repo with the patch applied; /repo itself untouched)'
         if ran not in meta.get('ran', []): meta.setdefault('ran', []).append(ran)
         json.dump(meta, open(d + '/meta.json', 'w'), indent=1)
